@@ -13,7 +13,7 @@ const { SimFs } = require('./simfs')
 const smap = require('./smap')
 
 // two pairs share a base name in different directories
-const FILES = ['/sim/app/a.js', '/sim/app/lib/b.js', '/sim/other/a.js', '/sim/c.js', '/sim/app/lib/deep/b.js', '/sim/other/e.js', '/sim/app/a\u00f1adir.js']
+const FILES = ['/sim/app/a.js', '/sim/app/lib/b.js', '/sim/other/a.js', '/sim/c.js', '/sim/app/lib/deep/b.js', '/sim/other/e.js', '/sim/app/a\u00f1adir.js', '/sim/app/gen\\util.js']
 
 function cfgOf (chain, comments) {
   return {
@@ -46,6 +46,14 @@ function plan (seed, run, tier) {
       versions.push(genVersion(rng, fi, vi, kind, { file, omap, allowMsgAt, lookalikeLine: rng.chance(1, 5) }))
     }
     files.push({ path: file, versions })
+  }
+  // twins: a second file with the same base name carries byte-identical versions (a dependency installed twice)
+  if (files.length >= 2 && rng.chance(1, 4)) {
+    const a = files[0]
+    const twinPath = path.join(path.dirname(a.path), 'node_modules/copy', path.basename(a.path))
+    const twin = { path: twinPath, versions: JSON.parse(JSON.stringify(a.versions)), twinOf: 0 }
+    for (const v of twin.versions) if (v.omap && v.omap.mapPath) v.omap.mapPath = path.join(path.dirname(twinPath), v.omap.url)
+    files[1] = twin
   }
   // files that live only in the simulated fs (path/line lookups)
   const lookups = []
@@ -403,7 +411,7 @@ function execute (plan, table) {
           const cf = plan.files[op.cbf]; const cld = cf && loaded[cf.path]
           if (cld) {
             const cver = cf.versions[cld.v]
-            const cs = cver.sites.filter(s => !['callback', 'throw', 'method', 'helper', 'double', 'evalfn', 'msg-loc'].includes(s.kind))
+            const cs = cver.sites.filter(s => !['callback', 'throw', 'method', 'helper', 'double', 'evalfn', 'msg-loc', 'builtin-callback'].includes(s.kind))
             if (cs.length) { const c = cs[op.cbsite % cs.length]; cb = cld.exports[c.fn]; cbKind = c.kind; if (cf.path !== f.path) st('probe:cross-file-stack') }
           }
           if (typeof cb !== 'function') cb = function plainCallback () { return new Error('cb') }
